@@ -26,3 +26,4 @@ def rules(ctx):
     S.relocation_content_rules(ctx)
     S.survey2_rules(ctx)
     S.round4_residue_rules(ctx)
+    S.survey3_rules(ctx)
